@@ -1,8 +1,83 @@
 (* C13 — the client follows one consistent timeline of signed tree heads.
-   Property theorems only; each is closed by [exact] of a lemma proved elsewhere. *)
+   Property theorems only; each is closed by [exact] of a lemma proved elsewhere
+   (Client/SeqProofs*.v).  Same model and vocabulary as Props/C01.v; in addition
+     Consistent node_hash NodeAt older newer
+        := older is the empty tree, or the hashes of the decomposition SubTreeIndex(0, older.N),
+           each authenticated (NodeAt) against newer's root, fold (TreeHash) to older's hash
+           — exactly what checkTrees computes from newer's tiles;
+     on_timeline latest tr := Consistent tr latest if tr.N <= latest.N, else Consistent latest tr
+        (the comparison mergeLatestMem makes);
+     run steps w cs : the history semantics — lookups (client index, path, version) executed one
+        after the other by any number of clients sharing the world w (restarts are new clients). *)
 From Verif.Base Require Import Bytes.
-From Verif.Client Require Import Seq SeqProofs.
+From Verif.Tlog Require Import Index Tree Codec Tile TileReader TileSpec.
+From Verif.Note Require Import Note.
+From Verif.Client Require Import Seq SeqProofs SeqProofsTile SeqProofsSafe SeqProofsTop SeqProofsInst.
 
+(* config_monotone_chain: along any history every WriteConfig (successful or lost to a write
+   conflict) writes a head signed under the configured key over a stored head that is empty or
+   signed, strictly smaller, and Consistent with the new one. *)
+Theorem C13_config_monotone_chain :
+  forall sha leaf_hash node_hash V esc_path esc_vers skip vs name,
+  (forall msg t, signed_tree V vs msg t -> Codec.tN t < 2 ^ 62) ->
+  forall steps w cs rs evs w' cs' f old new ok,
+  (forall i, ClientInv leaf_hash V (NodeAt node_hash) vs name (cs i)) -> key_ok sha vs name w ->
+  run sha leaf_hash node_hash V esc_path esc_vers skip steps w cs = (rs, evs, w', cs') ->
+  In (EvWriteConfig f old new ok) evs ->
+  f = latest_file name /\
+  exists tnew, signed_tree V vs new tnew /\
+    (old = [] \/ exists told, signed_tree V vs old told /\ Codec.tN told < Codec.tN tnew /\
+                              Consistent node_hash (NodeAt node_hash) told tnew).
+Proof. exact config_monotone_chain_c10. Qed.
+Print Assumptions C13_config_monotone_chain.
+
+(* fork_never_accepted: a validly signed head that is not on the client's timeline (either size
+   order, equal sizes with different hashes included) makes mergeLatest fail; the client's head and
+   the configuration are unchanged and no WriteConfig is emitted (ev_nocfg). *)
+Theorem C13_fork_never_accepted :
+  forall (sha : str -> str) leaf_hash node_hash V (esc_path esc_vers : str -> option str) (skip : str -> bool) vs name,
+  (forall msg t, signed_tree V vs msg t -> Codec.tN t < 2 ^ 62) ->
+  forall msg tr s r s',
+  CInv leaf_hash V (NodeAt node_hash) vs name (s_c s) ->
+  signed_tree V vs msg tr ->
+  ~ on_timeline node_hash (NodeAt node_hash) (c_latest (s_c s)) tr ->
+  merge_latest node_hash V msg s = (r, s') ->
+  (exists e, r = Some e) /\
+  (c_latest (s_c s') = c_latest (s_c s) /\ c_latest_msg (s_c s') = c_latest_msg (s_c s)) /\
+  (w_config (s_w s') = w_config (s_w s) /\ w_interf (s_w s') = w_interf (s_w s)) /\
+  textend (ev_nocfg leaf_hash node_hash V (NodeAt node_hash) (tile_ok node_hash) vs name) s s'.
+Proof. exact fork_never_accepted_c10. Qed.
+Print Assumptions C13_fork_never_accepted.
+
+(* fork_reports_both_heads, part 1: every Security event names two notes, each the empty timeline
+   or signed under the configured key, and its text contains both (indented as checkTrees prints them) *)
+Theorem C13_security_report_shape :
+  forall sha leaf_hash node_hash V esc_path esc_vers skip vs name,
+  (forall msg t, signed_tree V vs msg t -> Codec.tN t < 2 ^ 62) ->
+  forall steps w cs rs evs w' cs' msg,
+  (forall i, ClientInv leaf_hash V (NodeAt node_hash) vs name (cs i)) -> key_ok sha vs name w ->
+  run sha leaf_hash node_hash V esc_path esc_vers skip steps w cs = (rs, evs, w', cs') ->
+  In (EvSecurity msg) evs ->
+  exists older newer,
+    (older = [] \/ exists t, signed_tree V vs older t) /\ (newer = [] \/ exists t, signed_tree V vs newer t) /\
+    (exists pre post, msg = pre ++ indent older ++ post) /\ (exists pre post, msg = pre ++ indent newer ++ post).
+Proof. exact security_report_shape_c10. Qed.
+Print Assumptions C13_security_report_shape.
+
+(* fork_reports_both_heads, part 2: whenever a lookup of a history whose clients start without a
+   memoised security error returns ErrSecurity, a Security event is in the trace *)
+Theorem C13_security_error_reported :
+  forall sha leaf_hash node_hash V esc_path esc_vers skip vs name,
+  (forall msg t, signed_tree V vs msg t -> Codec.tN t < 2 ^ 62) ->
+  forall steps w cs rs evs w' cs',
+  (forall i, ClientInv leaf_hash V (NodeAt node_hash) vs name (cs i)) -> key_ok sha vs name w ->
+  (forall i, ~ sec_memo (cs i)) ->
+  run sha leaf_hash node_hash V esc_path esc_vers skip steps w cs = (rs, evs, w', cs') ->
+  In (LErr ESecurity) rs -> Exists is_sec evs.
+Proof. exact security_error_reported_c10. Qed.
+Print Assumptions C13_security_error_reported.
+
+(* WriteConfig is a compare-and-swap on the stored file (after a possible interference) *)
 Theorem C13_write_config_cas : forall f old new s,
   let cfg1 := match w_interf (s_w s) with Some x :: _ => assoc_set f x (w_config (s_w s)) | _ => w_config (s_w s) end in
   let cur := match assoc f cfg1 with Some d => d | None => [] end in
@@ -11,3 +86,26 @@ Theorem C13_write_config_cas : forall f old new s,
   s_tr (snd (write_config f old new s)) = s_tr s ++ [EvWriteConfig f old new (str_eqb old cur)].
 Proof. exact write_config_cas. Qed.
 Print Assumptions C13_write_config_cas.
+
+(* non-vacuity: new clients satisfy the hypotheses of the history theorems *)
+Example C13_new_clients_inv : forall leaf_hash V NodeAt vs name,
+  (forall i : nat, ClientInv leaf_hash V NodeAt vs name ((fun _ => new_client 2) i)) /\
+  (forall i : nat, ~ sec_memo ((fun _ => new_client 2) i)).
+Proof.
+  intros. split; intros i.
+  - unfold ClientInv, Fresh, new_client. cbn. repeat split; lia.
+  - unfold sec_memo, new_client. cbn. intros [H|(f & [])]. discriminate.
+Qed.
+
+(* NOT PROVED (targets of DESIGN.md):
+   * "the set of heads ever installed is totally ordered by Consistent": needs transitivity of
+     Consistent, which holds only up to hash collisions (NodeAt facts for two different roots);
+     the per-step statement C13_config_monotone_chain is what is proved.
+   * consistent_iff_check_tree (Consistent older newer <-> exists p, check_tree p newer older = Ok):
+     not attempted; Consistent is stated directly as what checkTrees computes.
+   * "honest growth never triggers Security": needs the completeness composition (see Props/C01.v);
+     decided by the oracles "honest-no-security" and "security-reports-both-heads" (every
+     SecurityError callback must name two mutually INCONSISTENT heads of the harness's ground truth).
+   * the retry branch of mergeLatestMem (c.latest changed underfoot by a concurrent lookup of the
+     same client) does not exist in the sequential model; fork_reports_both_heads for that path is
+     decided only by the overlapping-lookups stream of harness/props/c13.go (oracle strength). *)
